@@ -24,6 +24,7 @@ def c01(res, tier, a):
         ws.inject(sc)
         drv = ws.Driver(ws.build_driver(sc))
         cov = et.run_pipeline(res, tier, sc, drv)
+        cov.update(et.run_enum_layout(res, tier, sc, drv))
         res.coverage.update(cov)
 
 
